@@ -56,6 +56,22 @@ func genDispatch(c *ctx) string {
 		order = unknown("strategy switch", "resolve.go resolveField")
 	}
 	b.WriteString("def dispatchOrder : List String := " + order + "\n")
+	// ResolveExecutable: the single-operation fall-back, with or without the test that no name was given
+	fb := unknown("operation fall-back", "resolve.go ResolveExecutable")
+	if re := c.funcs["Root.ResolveExecutable"]; re != nil {
+		ast.Inspect(re.Body, func(n ast.Node) bool {
+			if is, ok := n.(*ast.IfStmt); ok {
+				switch c.src(is.Cond) {
+				case "len(exe.Ops) == 1":
+					fb = "true"
+				case "len(opName) == 0 && len(exe.Ops) == 1", `opName == "" && len(exe.Ops) == 1`:
+					fb = "false"
+				}
+			}
+			return true
+		})
+	}
+	b.WriteString("def opFallbackAnyName : Bool := " + fb + "\n")
 	b.WriteString("end Ggql.Gen\n")
 	return b.String()
 }
